@@ -200,6 +200,7 @@ package websocket
 //@   nopanic
 //@   havoc
 //@   modifies ghost.*
+//@   ensures ghost.exit_cb == old(ghost.exit_cb)
 
 //@ func (*conn).rangeAndClean
 //@   prop C11 C10 C09
@@ -209,23 +210,42 @@ package websocket
 //@   flag fn.f=github.com/hprose/hprose-golang/v3/rpc/websocket::CleanFunc
 //@   requires c != nil
 //@   loop 1 invariant ghost.held[addr(c.lock)] == 1
+//@   loop 1 invariant ghost.exit_cb == old(ghost.exit_cb)
+//@   loop 2 invariant ghost.exit_cb == old(ghost.exit_cb)
 //@   ensures [lock_released] ghost.held[addr(c.lock)] == 0
 //@   ensures [no_pending_entry_left] len(c.results) == 0
+//@   ensures ghost.exit_cb == old(ghost.exit_cb)
 
+// Close fails the pending calls on EVERY call, not only on the one that closes the socket: a call
+// that registered after the first Close (it had picked the connection before it left the pool) is
+// swept by the next one (Abort, or the other goroutine's Exit).
 //@ func (*conn).Close
 //@   prop C11 C10
 //@   nopanic
 //@   havoc
 //@   modifies ghost.*
 //@   requires c != nil
+//@   ensures [no_pending_call_is_left_by_any_close] len(c.results) == 0
+//@   ensures ghost.exit_cb == old(ghost.exit_cb)
 
+// the end of a connection goroutine: the connection leaves the pool FIRST (a later call must not
+// pick a connection that is being torn down), and whatever the error was the pending calls are failed
+//@ ghost exit_cb int
+//@ type ExitCallback()
+//@   nopanic
+//@   havoc
+//@   modifies ghost.*
+//@   ensures ghost.exit_cb == old(ghost.exit_cb) + 1
 //@ func (*conn).Exit
 //@   prop C11 C10
 //@   nopanic
 //@   havoc
 //@   modifies ghost.*
-//@   flag fn.onExit=github.com/hprose/hprose-golang/v3/rpc/websocket::Callback
+//@   flag fn.onExit=github.com/hprose/hprose-golang/v3/rpc/websocket::ExitCallback
 //@   requires c != nil
+//@   atcall Close [the_connection_has_left_the_pool_before_it_is_torn_down] ghost.exit_cb == old(ghost.exit_cb) + 1
+//@   ensures [the_pool_callback_runs_exactly_once] ghost.exit_cb == old(ghost.exit_cb) + 1
+//@   ensures [any_error_ending_the_connection_fails_its_pending_calls] old(err) != nil ==> len(c.results) == 0
 
 //@ func (*conn).Send
 //@   prop C11 C10
